@@ -1581,11 +1581,11 @@ impl Server {
             false
         } else {
             matches!(command,
-                "SET" | "DEL" | "EXPIRE" | "INCR" | "DECR" | "INCRBY" | "DECRBY" |
-                "SETNX" | "SETEX" | "PSETEX" | "FLUSHDB" | "FLUSHALL" |
+                "SET" | "DEL" | "EXPIRE" | "PEXPIRE" | "INCR" | "DECR" | "INCRBY" | "DECRBY" |
+                "SETNX" | "SETEX" | "PSETEX" | "GETSET" | "FLUSHDB" | "FLUSHALL" |
                 "LPUSH" | "RPUSH" | "LPOP" | "RPOP" | "LSET" | "LREM" | "LTRIM" |
                 "SADD" | "SREM" | "SPOP" | 
-                "HSET" | "HDEL" | "HINCRBY" |
+                "HSET" | "HMSET" | "HDEL" | "HINCRBY" |
                 "ZADD" | "ZREM" | "ZINCRBY" | "ZPOPMIN" | "ZPOPMAX" |
                 "XADD" | "XTRIM" | "XDEL" |  // Stream write commands
                 "XGROUP" | "XACK" | "XCLAIM" |  // Consumer group write commands
